@@ -250,6 +250,11 @@ def _combine_internals(fi: FuncInfo) -> List[Ob]:
     for n in walk_no_nested(fn):
         if isinstance(n, ast.Assign) and isinstance(n.value, ast.ListComp) and _selection_ok(n.value, {va}) == "":
             sel_ok = True
+    # comprehension / generator form inside a loop over the arguments: L.extend(ps for ps in <all spaces> if state in ps.state_objs)
+    va_vars = {va} | {src(l.target) for l in walk_no_nested(fn) if isinstance(l, ast.For) and src(l.iter) == va and isinstance(l.target, ast.Name)}
+    for n in walk_no_nested(fn):
+        if isinstance(n, (ast.ListComp, ast.GeneratorExp)) and _selection_ok(n, va_vars) == "":
+            sel_ok = True
     (obs.append(ok("BLOCK", fi, "existing-spaces-selection", P, fn, "only product spaces holding an argument are collected")) if sel_ok else
      obs.append(bad("BLOCK", fi, "existing-spaces-selection", P, fn, "combine() no longer collects exactly the product spaces that hold one of its arguments")))
     # consumption loops
@@ -262,6 +267,10 @@ def _combine_internals(fi: FuncInfo) -> List[Ob]:
             v = n.value
             if isinstance(v, ast.ListComp) and len(v.generators) == 1 and src(v.generators[0].iter) == va and not v.generators[0].ifs:
                 sel_names.add(tn)
+            if isinstance(v, ast.Call) and isinstance(v.func, ast.Name) and v.func.id in ("list", "tuple") and len(v.args) == 1 and src(v.args[0]) == va:
+                sel_names.add(tn)          # a plain copy of the argument tuple
+            if isinstance(v, ast.Call) and isinstance(v.func, ast.Name) and v.func.id == "list" and len(v.args) == 1 and "dict.fromkeys(" in src(v.args[0]):
+                sel_names.add(tn)          # de-duplicated selection
     sel_names.add(va)
     k = 0
     for loop in [n for n in walk_no_nested(fn) if isinstance(n, ast.For)]:
